@@ -461,7 +461,7 @@ let event_matches (e : event) (st : lstep) : bool =
   let (loc, id) = match e.ev_loc with LTF p -> ("tf", p) | LHeap p -> ("heap", p) | LDel h -> ("del", h) in
   k = st.lkind && loc = st.lloc && id = st.lid && aval_matches loc id e.ev_old st.lold && aval_matches loc id e.ev_new st.lnew
 
-let max_cands = 512
+let max_cands = 2048
 let dedupe (l : cfg list) : cfg list =
   let l = L.sort_uniq compare l in
   if L.length l > max_cands then L.filteri (fun k _ -> k < max_cands) l else l
@@ -484,7 +484,9 @@ let start_candidates (c : cfg) (t : coq_N) (call : string list) (st : lstep) : o
   (match st.lloc with
    | "tf" ->
      let p = st.lid in
-     add (OpCollect (p, false)); add (OpCollect (p, true)); add (OpToFull p); add (OpNever p)
+     (* mi_page_to_full = in_full := true (owner-private, re-synchronised by the next G line) + OpCollect p false;
+        OpNever only occurs on thread exit / heap destroy, which are outside the replayed programs *)
+     add (OpCollect (p, false)); add (OpCollect (p, true))
    | "del" ->
      let h = st.lid in
      add (OpPartial h); add (OpDelayedAll h); add (OpHeapCollect (h, false)); add (OpHeapCollect (h, true)); add (OpHeapDelete h)
